@@ -55,6 +55,7 @@ def schema? (name : String) (pv : Nat) : Option Ty :=
   | "inv" => some invMsg
   | "getblocks" => some getBlocksMsg
   | "addr" => some addrMsg
+  | "merkleblock" => some merkleBlockMsg
   | "coinbase" => some coinBase
   | "transferasset" => some transferAsset
   | "producerinfo" => some (producerInfo pv)
